@@ -4,5 +4,10 @@ CONSTANTS
   Ordering = "minmax"
   ZS = 100
   Z <- MCZ
+  TK = {5,8,12,20,30,34,40,47,52,53,54,60,100,332,997,1022,1074}
+  HiMax = 53
+  ZTS = 100
+  ZT <- MCZT
+  Delivery = "by_prior"
 POSTCONDITION Accepted
 CHECK_DEADLOCK FALSE
